@@ -38,6 +38,8 @@ func init() {
 			{ID: "R05k", Floor: 1, Doc: "the CLI verifier accepts the index padding the writers produce (= R19k)", Run: ruleR19k},
 			{ID: "R05l", Floor: 2, Doc: "in CARv2 mode a finalize call reports success only as the result of store.Finalize: past the WriteAsCarV1 test there is no `return nil` of its own (a finalize that is skipped leaves the zeroed header and no index that Resume left behind)", Run: ruleR05l},
 			{ID: "R05m", Floor: 2 + 2 + 4, Doc: "put de-duplication decides by CID/multihash, so no block that was put is left out of the finalized file (= R04a)", Run: ruleR04a},
+			{ID: "R05n", Floor: 1, Doc: "what a finalized header announces as index is one of the two real index formats (= R11o)", Run: ruleR11o},
+			{ID: "R05o", Floor: 1, Doc: "a failed Finalize is reported by Close, not replaced by the outcome of closing the file (= R16l)", Run: ruleR16l},
 		},
 	})
 }
@@ -434,29 +436,36 @@ func ruleR05b(c *Ctx, r *Report) {
 			if !ok || !fieldAddrIs(fa, cs.spec.pkg, cs.hdrTyp, "header") {
 				return
 			}
-			n++
-			cl, _ := callOf(canon(st.Val))
-			if cl == nil {
-				bad = "header field assigned from something other than NewHeader/With*Padding"
-				return
-			}
-			f := calleeFunc(cl.Common())
-			switch {
-			case funcIs(f, modV2, "", "NewHeader"):
-				if k, ok := constInt(cl.Call.Args[0]); !ok || k != 0 {
-					bad = "initial header is not NewHeader(0)"
+			// the stored value, or every input of the merge it is (a helper that applies the paddings
+			// conditionally, inlined back, hands over phi[header, WithDataPadding(..), WithIndexPadding(..)])
+			for _, leaf := range phiLeaves(st.Val) {
+				if loadsField(leaf, cs.spec.pkg, cs.hdrTyp, "header") {
+					continue // the header as it was
 				}
-				sawNew = true
-			case funcIs(f, modV2, "Header", "WithDataPadding"):
-				if !loadsField(canon(cl.Call.Args[1]), modV2, "Options", "DataPadding") {
-					bad = "WithDataPadding is not given Options.DataPadding"
+				n++
+				cl, _ := callOf(leaf)
+				if cl == nil {
+					bad = "header field assigned from something other than NewHeader/With*Padding"
+					return
 				}
-			case funcIs(f, modV2, "Header", "WithIndexPadding"):
-				if !loadsField(canon(cl.Call.Args[1]), modV2, "Options", "IndexPadding") {
-					bad = "WithIndexPadding is not given Options.IndexPadding"
+				f := calleeFunc(cl.Common())
+				switch {
+				case funcIs(f, modV2, "", "NewHeader"):
+					if k, ok := constInt(cl.Call.Args[0]); !ok || k != 0 {
+						bad = "initial header is not NewHeader(0)"
+					}
+					sawNew = true
+				case funcIs(f, modV2, "Header", "WithDataPadding"):
+					if !loadsField(canon(cl.Call.Args[1]), modV2, "Options", "DataPadding") {
+						bad = "WithDataPadding is not given Options.DataPadding"
+					}
+				case funcIs(f, modV2, "Header", "WithIndexPadding"):
+					if !loadsField(canon(cl.Call.Args[1]), modV2, "Options", "IndexPadding") {
+						bad = "WithIndexPadding is not given Options.IndexPadding"
+					}
+				default:
+					bad = "header field assigned from " + funcKey(f)
 				}
-			default:
-				bad = "header field assigned from " + funcKey(f)
 			}
 		})
 		if bad == "" && (!sawNew || n < 3) {
